@@ -81,6 +81,42 @@ def replays() -> None:
     expect(flagged == len(ok_recs), "S->C flags an expected error where the library succeeds")
 
 
+def lexer_machine() -> None:
+    """The token lists of LiquidLexer.tla bind: an expectation moved by one character, a marker changed, a token kind
+    swapped or an accepted source declared an error is flagged by the replay."""
+    from harness import lexer
+    r = tlc.run("LiquidLexer", tlc.cfg_text(constants={"Alphabet": "<- AMarkupSmall", "MaxLen": "3", "Prefix": "<- Empty", "Suffix": "<- Empty",
+                                                       "Focus": '"selftest"', "Shorthand": "FALSE"},
+                                            invariants=lexer.INVARIANTS, properties=["Progress"]), tag="selftest-lexer", timeout=1200)
+    expect(r.error is None and not r.invariant_violated, "TLC checks the lexer machine (PointersOK, PrefixTiling, Nested, FinalTiling, WcShape, Progress)")
+    recs = [json.loads(l) for l in (r.workdir / "out.ndjson").read_text().splitlines()]
+    r.cleanup()
+    expect(all(not lexer.judge(x, {}) for x in recs), f"S->C accepts the {len(recs)} token lists of the machine as they are")
+    done = [x for x in recs if x["outcome"] == "done" and x["toks"]]
+    marked = [x for x in done if any(t["wc"] for t in x["toks"])][:40]
+    for what, edit in (("a token end moved", lambda y: y["toks"][-1].__setitem__("b", y["toks"][-1]["b"] - 1)),
+                       ("a token kind swapped", lambda y: y["toks"][0].__setitem__("k", "RawToken" if y["toks"][0]["k"] != "RawToken" else "ContentToken")),
+                       ("an accepted source declared an error", lambda y: y.__setitem__("outcome", "error"))):
+        flagged = 0
+        for x in done[:40]:
+            y = json.loads(json.dumps(x)); edit(y)
+            flagged += bool(lexer.judge(y, {}))
+        expect(flagged == len(done[:40]), f"S->C flags {what} in all {len(done[:40])} token lists")
+    flagged = 0
+    for x in marked:
+        y = json.loads(json.dumps(x))
+        t = next(t for t in y["toks"] if t["wc"])
+        t["wc"][0] = "~" if t["wc"][0] != "~" else ""
+        flagged += bool(lexer.judge(y, {}))
+    expect(bool(marked) and flagged == len(marked), f"S->C flags a changed whitespace-control marker in all {len(marked)} token lists that carry one")
+    errs = [x for x in recs if x["outcome"] == "error"][:40]
+    flagged = 0
+    for x in errs:
+        y = json.loads(json.dumps(x)); y["outcome"] = "done"; y["toks"] = []
+        flagged += bool(lexer.judge(y, {}))
+    expect(bool(errs) and flagged == len(errs), f"S->C flags a rejected source declared accepted ({len(errs)} cases)")
+
+
 def deviations() -> None:
     for dev, kinds, sched in (("DateMemo", '{"call", "tick"}', "0"), ("PartialMemo", '{"call", "edit"}', "0"), ("SharedNode", '{"pair"}', "3"), ("SharedLoader", '{"call"}', "0")):
         r = tlc.run("LiquidHistory", tlc.cfg_text(constants={"MaxOps": "3", "MaxFault": "0", "Dev": '{"%s"}' % dev, "Focus": '"h"', "Kinds": kinds,
@@ -99,6 +135,7 @@ def deviations() -> None:
 def main() -> int:
     traces()
     replays()
+    lexer_machine()
     deviations()
     print(f"{'SELFTEST FAILED: ' + str(len(FAILED)) if FAILED else 'selftest passed'}")
     return 1 if FAILED else 0
